@@ -283,6 +283,13 @@ pub fn plan(tier: &str) -> Vec<(Cfg, Vec<Op>)> {
     v.push((c(4), vec![put(0, C_X), put(1, C_X), Op::Reopen, put(0, C_Y), Op::Remove { k: 1 }]));
     v.push((c(2), vec![put(0, C_X), put(1, C_X), put(2, C_X), Op::Reopen, put(0, C_Y)]));
     v.push((c(10_000), vec![put(0, C_L), put(0, C_E), Op::Remove { k: 0 }]));
+    // a checkpoint followed by two or three un-checkpointed records (the first record after the snapshot is special to a reader)
+    v.push((c(10_000), vec![put(0, C_X), Op::Checkpoint, put(1, C_X), put(2, C_Y)]));
+    v.push((c(10_000), vec![put(0, C_X), Op::Checkpoint, put(1, C_Y), put(0, C_Y), Op::Remove { k: 1 }]));
+    v.push((c(3), vec![put(0, C_X), put(1, C_X), Op::Checkpoint, put(2, C_Y), put(0, C_Y)]));
+    // identical consecutive records
+    v.push((c(10_000), vec![put(0, C_X), put(0, C_X), put(1, C_Y)]));
+    v.push((c(10_000), vec![put(0, C_X), Op::Checkpoint, put(1, C_Y), put(1, C_Y), put(1, C_Y)]));
     v
 }
 
